@@ -365,6 +365,23 @@ def translate_sequence(stmts, env, maps, where):
     segs, consts = [], []
     for s in stmts:
         e = _is_hw_update(s)
+        if e is not None and isinstance(e, ast.IfExp) and isinstance(e.body, ast.Constant) \
+                and isinstance(e.orelse, ast.Constant):
+            # `A if m else B` / `A if not m else B` with m a mapping: a keyword that depends on
+            # whether the mapping is empty
+            test, neg = e.test, False
+            if isinstance(test, ast.UnaryOp) and isinstance(test.op, ast.Not):
+                test, neg = test.operand, True
+            if not (_is_name(test) and test.id in maps and maps[test.id][1].startswith("map:")):
+                raise TranslatorError(f"{where}: conditional keyword with unsupported test {ast.unparse(e.test)}")
+            a, ia = word_expr(e.body, env, where)
+            b, ib = word_expr(e.orelse, env, where)
+            if neg:
+                a, b, ia, ib = b, a, ib, ia
+            name = f"kw{len(consts)}"
+            consts.append((name, (a, b, test.id), (ia[1], ib[1])))
+            segs.append(("const", None, ("condconst", test.id)))
+            continue
         if e is not None:
             w, info = word_expr(e, env, where)
             if info[0] == "const":
@@ -566,10 +583,28 @@ def generate():
         f"  flat_map (fun kv => file_words (fst kv) (snd kv)) ({file_src}).",
         "(* StepHash.from_inp: constant words in order of appearance, then the sequence *)",
     ]
-    for name, w, val in inp_consts:
-        lines.append(f"Definition {name} : word := {w}.  (* {val!r} *)")
+    for idx, (name, w, val) in enumerate(inp_consts):
+        note = repr(val).replace("*)", "* )")
+        if isinstance(w, tuple):
+            if idx != 3 or w[2] != "env_overrides":
+                raise TranslatorError(f"from_inp: conditional keyword #{idx} on {w[2]} (model: only the override "
+                                      "keyword may depend on whether env_overrides is empty)")
+            lines.append(f"Definition {name}_of (nonempty : bool) : word := if nonempty then {w[0]} else {w[1]}."
+                         f"  (* {note} *)")
+        elif idx == 3:
+            lines.append(f"Definition {name}_of (nonempty : bool) : word := {w}.  (* {note} *)")
+        else:
+            lines.append(f"Definition {name} : word := {w}.  (* {note} *)")
+    seg_terms = []
+    nconst = 0
+    for sg in inp_segs:
+        if sg[0] == "const":
+            seg_terms.append("[kw3_of (nonempty (cfg_ovrs c))]" if nconst == 3 else f"[kw{nconst}]")
+            nconst += 1
+        else:
+            seg_terms.append(sg[1])
     lines.append("Definition inp_words (c : cfg) : list word :=")
-    lines.append("  " + "\n  ++ ".join(s[1] for s in inp_segs) + ".")
+    lines.append("  " + "\n  ++ ".join(seg_terms) + ".")
     lines.append("(* StepHash.with_out_hashes *)")
     lines.append("Definition out_words (m : list (str * fsig)) : list word :=")
     lines.append("  " + "\n  ++ ".join(s[1] for s in out_segs) + ".")
